@@ -252,6 +252,13 @@ def main(mode):
         for b in variants:
             runs += 1
             fail = fail or check_pair(a, b)
+    # directed pairs: the same protocol and object with locations that differ in exactly one component (socket name, host, port, or location present / absent)
+    for p in ("PYRO", "PYRONAME"):
+        for o in ("obj", "x@"):
+            ls = ["./u:sock", "./u:other", "./u:/tmp/ns-a.sock", "h:1", "h:2", "g:1", "[::1]:1", "[::2]:1", "h:9090"] + ([None] if p == "PYRONAME" else [])
+            for la, lb in itertools.permutations(ls, 2):
+                runs += 1
+                fail = fail or check_pair(p + ":" + o + ("" if la is None else "@" + la), p + ":" + o + ("" if lb is None else "@" + lb))
     rep = {"runs": runs, "failing_input": fail, "known_findings_reproduced": KNOWN, "wall_s": round(time.time() - t0, 2),
            "bounded": [{"what": "real URI over grammar-generated strings and near-misses: round trip, fixed point, eq/hash, serializers, proxy state; regex/int/partition spec validation",
                         "bound": "%d protocols x %d objects x %d locations (+ seeded random strings in thorough); %d spec probes" % (len(protos), len(objs), len(locs), nspec),
